@@ -288,6 +288,8 @@ var c19templates = []string{
 	/* 12 */ "local \x01c\nlocal function dsp(n) return \x01c[n] end\n\x01c = { \x02s = function(p) end, \x03t = function() end }\nlocal \x04e, \x05f\n\x05f = { \x06u = function() end }\n",
 	// globals declared through _G
 	/* 13 */ "_G.\x01v = 1\nfunction _G.\x02f(a) end\n_G.\x03t = { \x04k = function() end }\n_G.\x05h = function() end\nlocal z = \x01v\n",
+	// a module table that is re-assigned as a whole after its members were attached
+	/* 14 */ "local \x01t = {}\nfunction \x01t.\x02f() end\nfunction \x01t:\x03m() end\n\x01t = setmetatable(\x01t, {})\n\x04g = {}\nfunction \x04g.\x05h() end\n\x04g = wrap(\x04g)\n",
 }
 
 func VerifRun_C19() {
